@@ -1,7 +1,7 @@
 (* Property C08 — every JWS the library produces decodes and verifies to what was signed.
    Pinned statements, for EVERY header serialisation oracle with parse (ser h) = Some h. *)
 From Coq Require Import List NArith ZArith Bool.
-From IdV Require Import Lib.Outcome Lib.Base64 Proofs.Base64Proofs Jose.Header Jose.Policy Proofs.PolicyProofs Jose.Jws Proofs.JwsProofs Doc.Doc Cred.Validate Cred.PresValidate Proofs.PresValidateProofs.
+From IdV Require Import Lib.Outcome Lib.Base64 Proofs.Base64Proofs Jose.Header Jose.Policy Proofs.PolicyProofs Jose.Jws Proofs.JwsProofs Doc.Doc Cred.Validate Cred.PresValidate Proofs.PresValidateProofs Cred.Claims Proofs.JwtEndToEndProofs.
 Import ListNotations.
 Open Scope N_scope.
 
@@ -109,3 +109,43 @@ Print Assumptions C08_verify_binds_method_nonce_scope.
 Print Assumptions C08_other_nonce_fails.
 Print Assumptions C08_scope_excluding_fails.
 Print Assumptions C08_other_method_key_fails.
+
+(* JwkDocumentExt::create_credential_jwt / create_presentation_jwt end to end: the claims text written by serialize_jwt (C07's conversion), signed
+   through create_jws with ANY signature options that keep the payload attached and encoded, comes back from the library's decoder as a text that
+   reads to the same credential / presentation and the same custom claims.  js/jp (pjs/pjp): JSON writer and reader, assumed to agree with the
+   structured serde model of C07 (reparse / preparse). *)
+Section C08_jwt.
+  Variable H : Type.
+  Variable hview : H -> hdr.
+  Variable parse_header : list N -> option H.
+  Variable ser_header : H -> list N.
+  Hypothesis parse_ser : forall h, parse_header (ser_header h) = Some h.
+  Hypothesis ser_bytes : forall h, Forall (fun b => b < 256) (ser_header h).
+  Variable js : claims -> custom -> list N.
+  Variable jp : list N -> option (claims * custom).
+  Hypothesis jp_js : forall k cu, jp (js k cu) = reparse k cu.
+  Hypothesis js_bytes : forall k cu, Forall (fun b => b < 256) (js k cu) /\ js k cu <> [].
+  Variable pjs : pclaims -> custom -> list N.
+  Variable pjp : list N -> option (pclaims * custom).
+  Hypothesis pjp_pjs : forall k cu, pjp (pjs k cu) = preparse k cu.
+  Hypothesis pjs_bytes : forall k cu, Forall (fun b => b < 256) (pjs k cu) /\ pjs k cu <> [].
+  Theorem C08_credential_jwt_roundtrip : forall c cu o h sg,
+    cred_wf c = true -> custom_ok cu = true ->
+    hview h = create_jws_header o -> jwt_opts_ok o = true -> Forall (fun b => b < 256) sg ->
+    exists e, enc_compact_new H hview ser_header (js (to_claims c) cu) h (Some 0) = Ok e /\
+      exists it, decode_compact H hview parse_header (compact_into_jws e sg) None = Ok it
+        /\ it_protected H it = Some h /\ it_sig H it = sg /\ it_si H it = ce_si e
+        /\ exists k, jp (it_claims H it) = Some (k, cu) /\ from_claims k = ROk c.
+  Proof. exact (credential_jwt_roundtrip H hview parse_header ser_header parse_ser ser_bytes js jp jp_js js_bytes). Qed.
+  Theorem C08_presentation_jwt_roundtrip : forall p po cu o h sg,
+    popts_wf po = true -> pcustom_ok cu = true ->
+    hview h = create_jws_header o -> jwt_opts_ok o = true -> Forall (fun b => b < 256) sg ->
+    exists e, enc_compact_new H hview ser_header (pjs (to_pclaims p po) cu) h (Some 0) = Ok e /\
+      exists it, decode_compact H hview parse_header (compact_into_jws e sg) None = Ok it
+        /\ it_protected H it = Some h /\ it_sig H it = sg /\ it_si H it = ce_si e
+        /\ exists k, pjp (it_claims H it) = Some (k, cu)
+             /\ from_pclaims k = ROk {| d_pres := p; d_expires := o_expires po; d_issued := o_issued po; d_aud := o_aud po |}.
+  Proof. exact (presentation_jwt_roundtrip H hview parse_header ser_header parse_ser ser_bytes pjs pjp pjp_pjs pjs_bytes). Qed.
+End C08_jwt.
+Print Assumptions C08_credential_jwt_roundtrip.
+Print Assumptions C08_presentation_jwt_roundtrip.
